@@ -251,6 +251,16 @@ def build_closure(which):
     if which == "capture_after":
         return ("local a, b, c = ...\nlocal fs = {}\nfor i = a, b, c do\n  fs[#fs + 1] = function() return i end\n  if #fs >= %d then break end\nend\n"
                 "for k = 1, #fs do emit(fs[k]()) end\n" % PCAP)
+    if which == "ctrl_order_start":
+        # round 8 (seeded change C16-m10 was missed): the three control expressions are evaluated once, IN ORDER, and the
+        # progression starts from e1's value at that moment: later control expressions that reassign the variable e1 (or e2)
+        # was read from must not matter
+        return ("local a, b, c = ...\nlocal S, L, T = a, b, c\nlocal function lim() local l = L; S = 1000; return l end\n"
+                "local function stp() local t = T; S = 2000; L = -5; return t end\nlocal n = 0\n"
+                "for i = S, lim(), stp() do\n  emit(i)\n  n = n + 1\n  if n >= %d then break end\nend\n" % PCAP)
+    if which == "ctrl_order_limit":
+        return ("local a, b, c = ...\nlocal S, L, T = a, b, c\nlocal function stp() local t = T; L = -5; S = 2000; return t end\nlocal n = 0\n"
+                "for i = S, L, stp() do\n  emit(i)\n  n = n + 1\n  if n >= %d then break end\nend\n" % PCAP)
     if which == "stale_setter":
         return ("local a, b, c = ...\nlocal bump\nlocal gets = {}\nlocal n = 0\nfor i = a, b, c do\n  if bump then bump() end\n  emit(i)\n"
                 "  bump = function() i = i + 100 end\n  gets[#gets + 1] = function() return i end\n  n = n + 1\n  if n >= %d then break end\nend\n"
@@ -284,7 +294,7 @@ def check_programs(ck, gvh, oracle):
             for b in ("I3", N.F(2.5), "S33", "I5", N.F(3.0)):
                 progs.append(("nested", src, (a, b), (kind, "nested")))
     # closures capturing the loop variable: every iteration has its own variable
-    for which in ("capture_after", "stale_setter"):
+    for which in ("capture_after", "stale_setter", "ctrl_order_start", "ctrl_order_limit"):
         src = build_closure(which)
         for a in starts:
             for b in limits:
@@ -297,7 +307,7 @@ def check_programs(ck, gvh, oracle):
     # oracle: the manual's sequence for every numeric triple needed
     need = {}
     for what, src, args, _ in progs:
-        if what in ("single", "capture_after", "stale_setter"):
+        if what in ("single", "capture_after", "stale_setter", "ctrl_order_start", "ctrl_order_limit"):
             need[manual_triple(*args)] = None
         elif what == "nested_capture":
             need[manual_triple(args[0], args[1], "I1")] = None
@@ -348,11 +358,11 @@ def check_programs(ck, gvh, oracle):
                         fin["S"] = SET["S"]
                 ev = seq + [",".join([after_tag] + [x for k in ("S", "L", "T") for x in (hxv(fin[k]), tname(fin[k]))])]
                 want = ";".join(ev)
-        elif what in ("capture_after", "stale_setter"):
+        elif what in ("capture_after", "stale_setter", "ctrl_order_start", "ctrl_order_limit"):
             st, seq = need[manual_triple(*args)]
             if st.startswith("E"):
                 want_status, want = "error", None
-            elif what == "capture_after":
+            elif what in ("capture_after", "ctrl_order_start", "ctrl_order_limit"):
                 want_status, want = "ok", ";".join(seq)
             else:
                 later = [plus100(v) for v in seq[:-1]] + seq[-1:]
